@@ -346,6 +346,75 @@ def _blank_dead(caller):
             blk["term"] = {"k": "unreachable", "span": blk["term"].get("span"), "dead": True}
 
 
+def _remap_locals(o, f):
+    if isinstance(o, dict):
+        if "local" in o and isinstance(o["local"], int) and "proj" in o:
+            o["local"] = f(o["local"])
+            for el in o["proj"]:
+                if el.get("k") == "index" and isinstance(el.get("local"), int):
+                    el["local"] = f(el["local"])
+                _remap_locals(el, f)
+            return
+        for k, v in o.items():
+            _remap_locals(v, f)
+    elif isinstance(o, list):
+        for v in o:
+            _remap_locals(v, f)
+
+
+def fn_items_to_closures(doc, cand):
+    """`xs.map(helper)` with `helper` a new local fn (not in the pinned tree) is `xs.map(|x| helper(x))`
+    with the call inlined: every use of such a function *as a value* (a fn-item constant operand) is
+    replaced by a capture-less closure whose body is a copy of the function's (an unused environment
+    parameter inserted as _1, as in every closure body).  Rules that look at the callable handed to
+    an adaptor then see what they saw before a closure was turned into a local fn."""
+    made = {}
+    n = 0
+    for b in doc["bodies"]:
+        if b.get("inlined_away"):
+            continue
+        for bi, blk in enumerate(b["blocks"]):
+            t = blk["term"]
+            if t["k"] != "call":
+                continue
+            for ai, a in enumerate(t.get("args") or []):
+                if not (isinstance(a, dict) and a.get("k") == "const" and a.get("fn") in cand and a.get("fn_krate") == doc.get("crate")):
+                    continue
+                f = cand[a["fn"]]
+                user = b["path"]
+                key = (user, a["fn"])
+                if key not in made:
+                    k = sum(1 for x in made if x[0] == user)
+                    cpath = "%s::{closure#fn%d}" % (user, k)
+                    cj = copy.deepcopy(f)
+                    cj["path"] = cpath
+                    cj["kind"] = "Closure"
+                    cj["parent"] = b.get("parent") or user
+                    cj["direct_parent"] = user
+                    cj["argc"] = f.get("argc", 0) + 1
+                    cj["from_fn_item"] = a["fn"]
+                    cj.pop("inlined_away", None)
+                    _remap_locals(cj["blocks"], lambda l: l if l == 0 else l + 1)
+                    _remap_locals(cj["hdr"].get("debug") or [], lambda l: l if l == 0 else l + 1)
+                    for d in cj["hdr"].get("debug") or []:
+                        if isinstance(d.get("arg"), int):
+                            d["arg"] += 1
+                    env = {"ty": "&{closure@fn-item %s}" % a["fn"], "info": {"k": "ref", "mut": False, "to": {"k": "closure", "def": cpath}}, "name": None, "mut": False}
+                    cj["hdr"]["locals"].insert(1, env)
+                    made[key] = cj
+                cj = made[key]
+                locs = b["hdr"]["locals"]
+                nl = len(locs)
+                locs.append({"ty": "{closure@fn-item %s}" % a["fn"], "info": {"k": "closure", "def": cj["path"]}, "name": None, "mut": False})
+                blk["stmts"].append({"k": "assign", "place": {"local": nl, "proj": []},
+                                     "rv": {"k": "aggregate", "kind": {"k": "closure", "def": cj["path"], "captures": []}, "ops": []},
+                                     "span": t.get("span")})
+                t["args"][ai] = {"k": "move", "place": {"local": nl, "proj": []}}
+                n += 1
+    doc["bodies"].extend(made.values())
+    return n
+
+
 def inline_new_helpers(doc, max_blocks=400):
     pinned = pinned_fns()
     if pinned is None:
@@ -413,6 +482,8 @@ def inline_new_helpers(doc, max_blocks=400):
                         break
     for pth in cand:
         bodies[pth]["inlined_away"] = True
+    if not os.environ.get("JBV_NO_FNITEM"):
+        fn_items_to_closures(doc, cand)
     # closures defined in an inlined helper now live (lexically, after inlining) in its callers
     callers = {}
     for c, h in done:
